@@ -289,11 +289,11 @@ var ExpUnary = []string{"x where true", "x => .", "1\\x", "-1\\x", "x >> .", "x 
 
 type Expander struct {
 	OnePerClass bool
-	sp    *Space
-	bin   map[string]rel.Expr
-	mem   map[string]rel.Expr
-	unary []rel.Expr
-	extra map[string]rel.Expr
+	sp          *Space
+	bin         map[string]rel.Expr
+	mem         map[string]rel.Expr
+	unary       []rel.Expr
+	extra       map[string]rel.Expr
 }
 
 func NewExpander(sp *Space) *Expander {
